@@ -29,11 +29,13 @@ Definition out_eqb (a b : out) : bool :=
 
 (* Which kind of lock owner [o] holds on byte [b] according to list [l]:
    the first entry of [o] covering [b]. *)
+Definition covers (s : lock) (o b : N) : bool :=
+  (lowner s =? o) && (lstart s <=? b) && (b <? lend s).
+
 Fixpoint kind_at (l : list lock) (o b : N) : option ltype :=
   match l with
   | [] => None
-  | s :: tl => if (lowner s =? o) && (lstart s <=? b) && (b <? lend s)
-               then Some (ltyp s) else kind_at tl o b
+  | s :: tl => if covers s o b then Some (ltyp s) else kind_at tl o b
   end.
 
 Definition okind_eqb (a b : option ltype) : bool :=
@@ -81,10 +83,12 @@ Definition points_of (l : list lock) : list N :=
 
 Definition owners_of (l : list lock) : list N := map lowner l.
 
+(* What a request of type [t] leaves on the bytes it covers. *)
+Definition kreq (t : ltype) : option ltype :=
+  match t with Unlocked => None | t => Some t end.
+
 Definition expected_kind (pre : list lock) (q : lock) (o b : N) : option ltype :=
-  if (lowner q =? o) && (lstart q <=? b) && (b <? lend q)
-  then match ltyp q with Unlocked => None | t => Some t end
-  else kind_at pre o b.
+  if covers q o b then kreq (ltyp q) else kind_at pre o b.
 
 Definition bytes_ok (pre post : list lock) (q : lock) : bool :=
   let pts := points_of (q :: pre ++ post) in
@@ -132,3 +136,37 @@ Definition p_step (pre post : list lock) (o : op) (x : out) : string :=
   | ORawSet ow t s e => p_set pre post (mkLock s e ow t) x
   end%string.
 
+
+(* ---- P over a whole trace ------------------------------------------------ *)
+
+(* The fold of [p_step] over the model's own run: pre-state, post-state,
+   operation and output of every step.  Corr.v folds the same [p_step] over
+   the implementation's recorded (pre, post, op, out). *)
+Fixpoint trace_ok (l : list lock) (ops : list op) : bool :=
+  match ops with
+  | [] => true
+  | o :: tl => let '(l', x) := step l o in
+               String.eqb (p_step l l' o x) "" && trace_ok l' tl
+  end.
+
+(* Requests as the callers of the lock table produce them: non-empty
+   ranges (see [offset_length_to_start_end]). *)
+Definition op_range (o : op) : N * N :=
+  match o with
+  | OLock _ _ s e | OUnlock _ s e | OTest _ _ s e | ORawSet _ _ s e => (s, e)
+  end.
+
+Definition valid_op (o : op) : Prop := fst (op_range o) < snd (op_range o).
+Definition valid_ops (ops : list op) : Prop := Forall valid_op ops.
+
+(* Histories in which Set is only reached the way OpenedFile.Lock/Unlock
+   reach it (Test first, or type Unlocked). *)
+Definition is_raw (o : op) : bool := match o with ORawSet _ _ _ _ => true | _ => false end.
+Definition no_raw (ops : list op) : Prop := Forall (fun o => is_raw o = false) ops.
+
+(* Per byte: two different owners never both hold a byte unless both
+   hold it shared. *)
+Definition excl_bytes (l : list lock) : Prop :=
+  forall o1 o2 b k1 k2, o1 <> o2 ->
+    kind_at l o1 b = Some k1 -> kind_at l o2 b = Some k2 ->
+    k1 = Shared /\ k2 = Shared.
